@@ -144,6 +144,20 @@ def _rand_job(args):
         if not (len(sv) and np.any((sv > 1e-3 * thr) & (sv < 1e3 * thr))):     # no singular value at the documented threshold
             rec.eqint(t, "RankIsNumberOfNonzeroSingularValues", int(u.rank(q_from_float(A))), int(np.sum(sv > thr)))
         nullspace_measure(rec, None, detail, A, r)
+        # GRADED rows / columns (scales 1, 2^-30, 2^-60, ...): the documented rank counts the singular values of the matrix
+        # AS GIVEN above eps * max(m, n) * s_max - no row or column equilibration - and is the same for A and A^H
+        if min(m, n) >= 2:
+            G = rng.standard_normal((m, n, 4))
+            for which in ("rows", "columns"):
+                Ag = G * ((2.0 ** (-30.0 * np.arange(m)))[:, None, None] if which == "rows" else (2.0 ** (-30.0 * np.arange(n)))[None, :, None])
+                svg = osvals(Ag)
+                thg = np.finfo(float).eps * max(m, n) * svg[0]
+                if np.any((svg > thg / 64) & (svg < thg * 64)):
+                    continue
+                want = int(np.sum(svg > thg))
+                t = rec.new("rank", "graded-" + which, {"kind": "graded", "shape": [m, n], "A": Ag.tolist()})
+                rec.eqint(t, "RankIsNumberOfNonzeroSingularValues", int(u.rank(q_from_float(Ag))), want)
+                rec.eqint(t, "RankOfConjugateTranspose", int(u.rank(q_from_float(oherm(Ag)))), want)
         if m == n and r == n:
             B = rng.standard_normal((n, n, 4))
             dA = float(u.det(q_from_float(A), "Dieudonne"))
